@@ -22,6 +22,8 @@ func init() {
 func runC11(p *core.Program, r *core.Report) {
 	// R12 (round 8): rendered text is never a format
 	constFormats(p, r, "R12", 5, "pkg/gengo/internal", "pkg/gengo/snippet", "pkg/namer", "pkg/gengo")
+	// R13 (round 9): the type arguments inside a generic name are split from their package at the last dot (C15.R3)
+	chainRules(p, r, "R13", "C15", []string{"C15.R2", "C15.R3"}, "type arguments are split into package path and name at the last dot")
 	f := p.FuncByName("pkg/gengo/internal", "(*Dumper).TypeLit")
 	if f != nil {
 		f = flatten(p, f) // arms moved into private helpers are seen in place
@@ -277,6 +279,7 @@ func runC11(p *core.Program, r *core.Report) {
 
 	// R2 lossy arm
 	r.Floor("R2", 1)
+	c11R14(p, r, f, armOf["interface"])
 	if cc := armOf["interface"]; cc != nil {
 		depends := false
 		ast.Inspect(cc, func(n ast.Node) bool {
